@@ -41,8 +41,12 @@ def carried_append_pairs(body, carried, assigned):
     for i, st in enumerate(body):
         if isinstance(st, ast.Expr) and isinstance(st.value, ast.Call) and isinstance(st.value.func, ast.Attribute) and st.value.func.attr == "append" \
                 and isinstance(st.value.func.value, ast.Name) and len(st.value.args) == 1 and not st.value.keywords \
-                and isinstance(st.value.args[0], ast.Name):
-            sname, vname = st.value.func.value.id, st.value.args[0].id
+                and (isinstance(st.value.args[0], ast.Name) or (isinstance(st.value.args[0], ast.Attribute)
+                                                                 and isinstance(st.value.args[0].value, ast.Name))):
+            a0 = st.value.args[0]
+            # xs.append(cur)  or  xs.append(cur.field) for a carried record `cur` (reported below as the name 'cur.field')
+            sname, vname = st.value.func.value.id, (a0.id if isinstance(a0, ast.Name) else a0.value.id)
+            dotted = vname if isinstance(a0, ast.Name) else "%s.%s" % (vname, a0.attr)
             later = set()
             for x in body[i + 1:]:
                 if isinstance(x, ast.Assign):
@@ -52,7 +56,7 @@ def carried_append_pairs(body, carried, assigned):
                                 later.add(n.id)
             other_uses = sum(1 for x in body for n in ast.walk(x) if isinstance(n, ast.Name) and n.id == sname)
             if vname in carried and vname not in assigned_so_far and vname in later and other_uses == 1:
-                out.append((st, sname, vname))
+                out.append((st, sname, dotted))
         for n in ast.walk(st):
             if isinstance(n, ast.Name) and isinstance(n.ctx, ast.Store):
                 assigned_so_far.add(n.id)
@@ -287,8 +291,15 @@ class LoopMixin:
             # a state variable that is recorded and then advanced ( xs.append(cur); ...; cur = next ) is the same sequence as
             # xs = [cur0]; ...; xs.append(next); ...; xs.pop(-1): it is analysed in that indexed form
             recorded = {}
+            def look(vn):
+                """value of a recorded state variable: 'cur' or the field 'cur.field' of a carried record"""
+                if "." not in vn:
+                    return frame.lookup(vn)
+                b, a = vn.split(".", 1)
+                bv = frame.lookup(b)
+                return self.getattr(bv, a, frame, st) if isinstance(bv, ObjV) else None
             for stx, sname, vname in carried_append_pairs(body, carried, assigned):
-                curl, curv = frame.lookup(sname), frame.lookup(vname)
+                curl, curv = frame.lookup(sname), look(vname)
                 if isinstance(curl, ListV) and curl.kind == "lit" and curv is not None and curv is not NONE and not isinstance(curv, (ListV, Opaque)) \
                         and sname not in recorded and vname not in [v for _, v in recorded.values()]:
                     recorded[sname] = (stx, vname)
@@ -338,6 +349,18 @@ class LoopMixin:
                     pass   # not a list: an object with its own append method (evaluated as the call it is)
                 else:
                     raise Unmodelled("append in a loop to the non-literal list %s at %s" % (name, frame.loc(st)))
+            # lists owned by a helper object and grown through its methods ( rec.withdraw(...) -> self.fluxes.append(...) ):
+            # the same append-once series as a local list, named after where it is held
+            for hname, hl in self.held_appends(body, frame).items():
+                if hname in state["series"]:
+                    continue
+                items = list(hl.items)
+                hl.__dict__.clear()
+                hl.kind = "series"
+                hl.__dict__.update(dict(name=hname, init=items, appended=[], k=idx, lo=lo, n=hi - lo, popped=0, closed=False,
+                                        elem_k=None, func=frame.func))
+                state["series"][hname] = hl
+                rec.series[hname] = hl
             # loop-carried scalars
             saved = {}
             rec_vars = {v: sname for sname, (_, v) in recorded.items()}
@@ -370,6 +393,12 @@ class LoopMixin:
                     ph = Opaque("loop-carried %s" % name)
                 rec.placeholders[name] = ph
                 self._set_var(frame, name, ph)
+                # fields of a carried record that the body records ( xs.append(cur.field) ): the field of the record at the head
+                # of step k IS element k of that list
+                for rv, sname in rec_vars.items():
+                    if "." in rv and rv.split(".", 1)[0] == name and isinstance(ph, ObjV):
+                        sr = state["series"][sname]
+                        ph.fields[rv.split(".", 1)[1]] = self.series_read(sr, Rat.atom(idx) - lo + (len(sr.init) - 1), frame, st)
             rec.local_before = {name: frame.lookup(name) for name in assigned if name not in saved}
             rec.local_after = {}
             self.assign(st.target, elem, frame)
@@ -381,7 +410,7 @@ class LoopMixin:
                 self.ctx.loop_stack.pop()
                 self.ctx.unrolled = saved_unrolled
             for sname, (stx, vname) in recorded.items():
-                self.series_append(state["series"][sname], frame.lookup(vname), frame, stx)
+                self.series_append(state["series"][sname], look(vname), frame, stx)
             for name, before_key in invariant.items():
                 try:
                     same = key_equiv(val_key(frame.lookup(name)), before_key)
@@ -403,7 +432,8 @@ class LoopMixin:
                         raise Unmodelled("list %s repeats its first value on one path and not on another at %s" % (name, frame.loc(st)))
             for sname, (stx, vname) in recorded.items():
                 self.series_pop(state["series"][sname], [Num(-1)], frame, stx)
-                self._set_var(frame, vname, Opaque("loop-carried %s" % vname))
+                if "." not in vname:
+                    self._set_var(frame, vname, Opaque("loop-carried %s" % vname))
             # accumulators
             for name, before in saved.items():
                 after = frame.lookup(name)
@@ -645,7 +675,32 @@ class LoopMixin:
             if isinstance(fv, ObjV) and fv.cls is not None and depth < 2 and fv.cls.fields:
                 self._inductive_facts(fv, path + "." + f.name, depth + 1)
 
+    def held_appends(self, body, frame):
+        """{'var.field': list} for literal lists that are fields of an object held in a local variable and that a method of
+        the object, called in the loop body on that variable, grows with self.<field>.append(...)."""
+        out = {}
+        for st in body:
+            for n in ast.walk(st):
+                if not (isinstance(n, ast.Call) and isinstance(n.func, ast.Attribute) and isinstance(n.func.value, ast.Name)):
+                    continue
+                obj = frame.lookup(n.func.value.id)
+                if not (isinstance(obj, ObjV) and obj.constructed and n.func.attr in obj.cls.methods):
+                    continue
+                m = obj.cls.methods[n.func.attr]
+                if not m.params:
+                    continue
+                for x in ast.walk(m.node):
+                    if isinstance(x, ast.Call) and isinstance(x.func, ast.Attribute) and x.func.attr == "append" \
+                            and isinstance(x.func.value, ast.Attribute) and isinstance(x.func.value.value, ast.Name) \
+                            and x.func.value.value.id == m.params[0]:
+                        lst = obj.fields.get(x.func.value.attr)
+                        if isinstance(lst, ListV) and lst.kind == "lit":
+                            out["%s.%s" % (n.func.value.id, x.func.value.attr)] = lst
+        return out
+
     def series_read(self, s: ListV, i: Rat, frame, node) -> Val:
+        if not s.closed and i.as_int() is not None and i.as_int() < 0:
+            i = self.series_len(s) + i      # xs[-1] while the list is growing: its current last element
         if s.closed and getattr(s, "extra_tail", 0) > 0 and i.as_int() is None:
             raise Unmodelled("record list %s is read with its look-ahead record still in place at %s" % (s.name, frame.loc(node)))
         if s.closed:
@@ -802,7 +857,7 @@ class LoopMixin:
             bound[name] = b
             self._set_var(frame, name, b)
         rec.bound = bound
-        g = self.eval(test, frame)
+        g = self.guard_value(test, frame)
         rec.guard = g
         state = {"rec": rec, "k": None, "series": {}, "aug": {}, "while": True}
         self.ctx.loop_stack.append(state)
@@ -841,6 +896,26 @@ class LoopMixin:
                 shared.append((tuple(lk), post))
             rec.post[name] = post
             self._set_var(frame, name, post)
+
+    def guard_value(self, test, frame):
+        """The loop test at the bound state as ONE condition: a conjunction `a and b` is the condition ('and', a, b) — evaluating
+        it as an expression would decide `a` and hand back only `b`."""
+        if isinstance(test, ast.BoolOp) and isinstance(test.op, ast.And):
+            conds = []
+            for v in test.values:
+                pv = self.eval(v, frame)
+                t = self.truth(pv, frame, v, fork=False)
+                if t is True:
+                    continue
+                if t is False:
+                    return BoolV(False)
+                if not (isinstance(pv, BoolV) and pv.cond is not None):
+                    return self.eval(test, frame)
+                conds.append(pv.cond)
+            if not conds:
+                return BoolV(True)
+            return BoolV(None, conds[0] if len(conds) == 1 else ("and",) + tuple(conds))
+        return self.eval(test, frame)
 
     def fix_like(self, proto: Val, path: str, loop_key, flags=()) -> Val:
         if isinstance(proto, Num):
